@@ -271,7 +271,13 @@ Definition check_case (cs : case) : verdict :=
                         (o_read_eq o) (o_cid_stable o) in
       let on := model_eq flags_on c chunks o in
       let off := model_eq flags_off c chunks o in
+      (* finding 1 has a precise signature: the root is a raw block, attributes were
+         requested, and the metadata clause is the ONLY clause of the specification
+         that fails (everything else, root-CID stability included, holds) *)
+      let sp_but_meta := spec_ok c chunks (o_tree o) (c_meta c) (o_size o) (o_read_len o)
+                                 (o_read_eq o) (o_cid_stable o) in
       if sp then (if on || off then VOk else VModelMismatch)
-      else if on && off_meets_spec c chunks then VKnown 1
+      else if on && off_meets_spec c chunks && sp_but_meta && is_raw_root (o_tree o)
+              && has_attrs (c_meta c) then VKnown 1
       else VSpecFail
   end.
